@@ -5,6 +5,9 @@ package environment
 //verif:pkg core/environment
 
 import (
+	"errors"
+
+	"github.com/AliceO2Group/Control/common/event"
 	"github.com/AliceO2Group/Control/core/task"
 	"github.com/AliceO2Group/Control/core/workflow"
 	vrt "github.com/AliceO2Group/Control/zz_vrt"
@@ -14,6 +17,7 @@ import (
 // task manager that answers with an arbitrary verdict. The request succeeds and the destination is reported if
 // and only if the task manager reported success; otherwise the environment stays in the source state and the
 // caller gets the error. With no active task CONFIGURE sends nothing and succeeds at once.
+//
 //verif:entry HarnessEnvironmentFollowsTaskVerdict unwind=96 preempt=0 reach=ok,failed,nothing stub=github.com/AliceO2Group/Control/common/utils.TimeTrack nosched=github.com/AliceO2Group/Control/core/the.mu
 func HarnessEnvironmentFollowsTaskVerdict() {
 	ev := vrt.IntRange("event", 0, 3)
@@ -31,7 +35,24 @@ func HarnessEnvironmentFollowsTaskVerdict() {
 	env.workflow = workflow.NewAggregatorRole("root", roles)
 	workflow.LinkChildrenToParents(env.workflow)
 	workflow.VerifAttach(env.workflow, env.wfAdapter)
-	tm := fenvTaskman(rec, env, func(n int) bool { return tasksFail })
+	allInactive := ntasks > 0 && vrt.Bool("every.task.already.dead") // deployed, then all its (non-critical) tasks died: roles INACTIVE
+	if allInactive {
+		for _, r := range roles {
+			workflow.VerifSetStatus(r, task.INACTIVE)
+		}
+	}
+	// the task manager answers with the verdict - and, like the real one, with an error when asked to configure nothing
+	tm := &task.Manager{MessageChannel: make(chan *task.TaskmanMessage, 4)}
+	go func() {
+		for msg := range tm.MessageChannel {
+			rec.add("taskman:message")
+			var err error
+			if tasksFail || (ev == 0 && task.VerifMessageTaskCount(msg) == 0) {
+				err = errors.New("a critical task could not make the transition")
+			}
+			env.stateChangedCh <- &event.TasksStateChangedEvent{EnvironmentId: env.Id(), TaskStateChangedErr: err}
+		}
+	}()
 	var tr Transition
 	switch ev {
 	case 0:
@@ -45,7 +66,7 @@ func HarnessEnvironmentFollowsTaskVerdict() {
 	}
 	err := env.TryTransition(tr)
 	sent := rec.count("taskman:message")
-	if ev == 0 && ntasks == 0 {
+	if ev == 0 && (ntasks == 0 || allInactive) {
 		vrt.Assert(sent == 0 && err == nil && env.CurrentState() == dst, "configure-with-nothing-to-command-succeeds-at-once")
 		vrt.Reach("nothing")
 		return
